@@ -158,6 +158,8 @@ def _case(draw):
         # figures must still be written although the Rst object was reused in between)
         full = draw(st.sampled_from([False, False, True]))
     case = {'root': root, 'full': full, 'fresh': fresh, 'prev': prev}
+    if draw(st.integers(0, 4)) == 0:
+        case['again'] = True
     if full and draw(st.integers(0, 2)) == 0:
         # figures written by a pool of subprocesses (RstTestReportTask with --workers)
         case['workers'] = draw(st.sampled_from([1, 2, 4]))
@@ -488,6 +490,24 @@ def run_case(case):
         left = f'files {files[:6]} dirs {dirs[:6]}' + (f' OUTSIDE the target: {outside}' if outside else '')
         _verdict(out, mod, fprints, target, files, dirs, outside, left, rejected, crashed,
                  (must_reject, may_reject, cause), tmp)
+        if case.get('again') and rejected is None and crashed is None and not out.failures:
+            # the report is produced once more into the same (cleaned) place, as when a notebook
+            # cell or a job is run again in one process: every write is a complete write
+            out.labels.append('written-twice-same-path')
+            shutil.rmtree(target)
+            if not case['fresh']:
+                os.mkdir(target)
+            try:
+                with _AllowChildren():
+                    fmt.write(target)
+            except Exception as exc:   # noqa: BLE001
+                out.failures.append(exc_failure('C20/second_write_raises', exc))
+            else:
+                files2, _dirs2 = _listing(target)
+                for sig, det in _compare(mod, fprints, target, files2):
+                    out.failures.append(Failure(sig.split('/')[1], sig + '/second-write', det[:400]))
+            finally:
+                _close_figures()
         if prev_fmt is not None:
             # the earlier report must be unaffected by the later one
             target2 = os.path.join(tmp, 'out-earlier')
